@@ -360,7 +360,7 @@ func runProtocol(kc *kernelCtx, blocks []*Block, only string, want map[string]bo
 	if on("C07") {
 		pc.p6Panics(only)
 	}
-	if on("C04") || on("C18") {
+	if on("C04") || on("C18") || on("C05") || on("C16") {
 		pc.p8Frames(only)
 	}
 	pc.opProps = map[string][]string{}
